@@ -3920,4 +3920,54 @@ theorem clauseAssign_sound {s : State} (inv : Inv s) (op : Op) :
   | _ => rfl
 
 
+theorem apSetParameterValue_fired (h : Store) (l : List ObjId) (pre n : String) (v : Rat) (vl : Valid h l) :
+    let r := apSetParameterValue h l pre n v
+    (r.err ≠ none → r.fired = none) ∧
+    (r.err = none → ∃ t, find? h l (pre ++ n) = some t ∧ r.fired = some [h.next] ∧
+      r.heap.get h.next = r.heap.get t) := by
+  have hnext : (setParameterValue h l (pre ++ n) v).heap.next = h.next := by
+    unfold setParameterValue; split
+    · rfl
+    · split <;> rfl
+  unfold apSetParameterValue; dsimp only
+  cases e1 : (setParameterValue h l (pre ++ n) v).err with
+  | some x => exact ⟨fun _ => rfl, fun c => by cases c⟩
+  | none =>
+    have hf : find? h l (pre ++ n) ≠ none := by
+      intro c; simp [setParameterValue, c] at e1
+    obtain ⟨t, ht⟩ := Option.ne_none_iff_exists'.1 hf
+    have nm : ∀ i ∈ l, nameOf (setParameterValue h l (pre ++ n) v).heap i = nameOf h i :=
+      fun i _ => setParameterValue_names h l (pre ++ n) v i
+    have hf' : find? (setParameterValue h l (pre ++ n) v).heap l (pre ++ n) = some t := by
+      rw [find?_congr nm]; exact ht
+    have pr := setParameterValue_pres h l (pre ++ n) v
+    have hs := createSubListNames_single (h := (setParameterValue h l (pre ++ n) v).heap) (l := l) (n := pre ++ n)
+      (by rw [hf']; simp)
+    have hcs : createSubListNames (setParameterValue h l (pre ++ n) v).heap l [] [pre ++ n] =
+        { heap := ((setParameterValue h l (pre ++ n) v).heap.alloc ((setParameterValue h l (pre ++ n) v).heap.get t)).1,
+          list := [(setParameterValue h l (pre ++ n) v).heap.next] } := by
+      simp [createSubListNames, hf', addParameter, hasParameter]
+    simp only [hs]
+    refine ⟨fun c => absurd rfl c, fun _ => ⟨t, ht, ?_, ?_⟩⟩
+    · rw [hcs, hnext]
+    · rw [hcs, ← hnext]
+      have : t < (setParameterValue h l (pre ++ n) v).heap.next :=
+        Nat.lt_of_lt_of_le (find?_valid vl ht) pr.next_le
+      simp [Nat.ne_of_lt this]
+
+theorem clauseNotify_sound {s : State} (inv : Inv s) (op : Op) :
+    clauseNotify s op (step s op).2.out (step s op).2.fired (step s op).1 = true := by
+  cases op with
+  | apSetValue k nm v =>
+    obtain ⟨f1, f2⟩ := apSetParameterValue_fired s.heap (s.lists k) (s.pre k) nm v (inv.wf k)
+    simp only [clauseNotify, step, stepAR]
+    by_cases e : (apSetParameterValue s.heap (s.lists k) (s.pre k) nm v).err = none
+    · obtain ⟨t, ht, g1, g2⟩ := f2 e
+      simp [e, Out.isErr, g1, ht, State.withHeap, g2]
+    · have := f1 e
+      obtain ⟨x, hx⟩ := Option.ne_none_iff_exists'.1 e
+      simp [hx, Out.isErr, this]
+  | _ => rfl
+
+
 end Bpp.ParamList
